@@ -321,7 +321,8 @@ class Gen:
                 f.initvar = True  # (forward references inside InitVar[...] are never resolved by typing)
             elif k < 0.12 and self.on("undefined", 1):
                 f.undefined = True
-            elif k < 0.18 and self.on("none_as_undefined", 1) and _non_none_alts(f.t):
+            elif k < 0.18 and self.on("none_as_undefined", 1) and _non_none_alts(f.t) and not (isinstance(f.t, Ann) and isinstance(strip(f.t), Union_)):
+                # (an Annotated union wrapped again in Optional is not flattened by typing: which None none_as_undefined removes is unclear)
                 if not isinstance(f.t, Union_):
                     f.t = opt(f.t)
                 elif not any(isinstance(a, Prim) and a.p == "none" for a in f.t.alts):
